@@ -12,6 +12,7 @@ from tools.lib.vlib import cN, cbool, clist, ctext, cZ
 PROP = "C04"
 GEN = ["GenClassTag"]
 ASSUMPTIONS = [
+    "register_x/unregister_x are exercised through SerializerBase, Pyro5.api and the four concrete classes; registries are restored after every case by deleting subclass attributes and resetting the base dicts",
     "the four serializer libraries are deterministic: decoding the same bytes without Pyro5's hooks yields the literal Pyro5's recreate_classes is given",
     "msgpack applies object_hook to every map after its members and ext_hook to every ext value, in document order",
     "constructors, __setstate__ and setattr of the closed-set classes may reject their arguments (external; cases generated as hostile accept such a failure where the model says a construction was attempted)",
@@ -83,6 +84,10 @@ class Impl:
         self.sers = dict(sz.serializers)
         self.rec = recorder()
         self.rec.srcfile = sz.__file__
+        import Pyro5.api as api
+        self.api = api
+        self.ser_classes = {"serpent": sz.SerpentSerializer, "marshal": sz.MarshalSerializer, "json": sz.JsonSerializer, "msgpack": sz.MsgpackSerializer}
+        self.pristine = {k: (getattr(sz.SerializerBase, a), dict(getattr(sz.SerializerBase, a))) for k, a in REG_ATTRS.items()}
         closed = {core.URI, client.Proxy, server.Daemon, core._ExceptionWrapper, struct.error,
                   sz.SerpentSerializer, sz.MarshalSerializer, sz.JsonSerializer, sz.MsgpackSerializer}
         self.builtin_exc = {k: v for k, v in vars(builtins).items() if isinstance(v, type) and issubclass(v, BaseException)}
@@ -102,6 +107,46 @@ class Impl:
                     except Exception:
                         self.picky.add(k)
         self.picky |= {"BaseExceptionGroup", "ExceptionGroup"}
+
+    def entry(self, ep):
+        return self.api if ep == "api" else self.sz.SerializerBase if ep == "base" else self.ser_classes[ep]
+
+    def apply_history(self, history, converter):
+        for op, ep, kind, tag in history:
+            target = self.entry(ep)
+            if kind == "d2c":
+                if op == "reg":
+                    target.register_dict_to_class(tag, converter)
+                else:
+                    target.unregister_dict_to_class(tag)
+            else:
+                clazz = KCLASSES[tag]
+                if op == "reg":
+                    target.register_class_to_dict(clazz, (lambda name: (lambda obj: {"__class__": "conv:" + name}))(tag), serpent_too=False)
+                else:
+                    target.unregister_class_to_dict(clazz)
+
+    def restore_registries(self):
+        """back to the registries as they were when Pyro5 was imported, whatever the tree did with them"""
+        for kind, attr in REG_ATTRS.items():
+            for c in self.ser_classes.values():
+                if attr in c.__dict__:
+                    delattr(c, attr)
+            obj, content = self.pristine[kind]
+            obj.clear()
+            obj.update(content)
+            setattr(self.sz.SerializerBase, attr, obj)
+
+    def c2d_observation(self, sername):
+        """for each harness class: does this serializer's class_to_dict use a registered converter"""
+        out = []
+        for name, clazz in sorted(KCLASSES.items()):
+            try:
+                d = self.ser_classes[sername].class_to_dict(clazz())
+                out.append([name, isinstance(d, dict) and str(d.get("__class__", "")).startswith("conv:")])
+            except Exception as x:
+                out.append([name, "error:" + type(x).__name__])
+        return out
 
     def acceptable_tag(self, tag, ser):
         """the property's closed set, as tag names (independent of the model)"""
@@ -129,6 +174,38 @@ def impl():
     if _IMPL is None:
         _IMPL = Impl()
     return _IMPL
+
+
+class K0(object):
+    pass
+
+
+class K1(object):
+    pass
+
+
+class K2(object):
+    pass
+
+
+KCLASSES = {"K0": K0, "K1": K1, "K2": K2}
+ENTRY_POINTS = ("base", "api", "serpent", "marshal", "json", "msgpack")
+REG_ATTRS = {"d2c": "_SerializerBase__custom_dict_to_class_registry", "c2d": "_SerializerBase__custom_class_to_dict_registry"}
+
+
+def history_of(case):
+    """register / unregister calls made before decoding: [op, entry point, registry, tag]; the legacy field
+    "registry" means: registered through SerializerBase"""
+    return [["reg", "base", "d2c", t] for t in case.get("registry", [])] + [list(x) for x in case.get("history", [])]
+
+
+def spec_registered(history, kind):
+    """the specification: tags whose last call (through whichever entry point) was a register"""
+    cur = {}
+    for op, ep, k, tag in history:
+        if k == kind:
+            cur[tag] = (op == "reg")
+    return {t for t, v in cur.items() if v}
 
 
 class CustomObj:
@@ -330,8 +407,16 @@ def run_impl(case):
     def converter(classname, d):
         convs.append(classname)
         return CustomObj(classname)
-    for tag in case.get("registry", []):
-        I.sz.SerializerBase.register_dict_to_class(tag, converter)
+    history = history_of(case)
+    obs["c2d"] = []
+    try:
+        I.apply_history(history, converter)
+        if any(h[2] == "c2d" for h in history):
+            obs["c2d"] = I.c2d_observation(case["ser"])
+    except Exception as x:
+        I.restore_registries()
+        obs["skip"] = "history failed: %s" % type(x).__name__
+        return obs
     rec = I.rec
     rec.events = []
     result = None
@@ -354,8 +439,7 @@ def run_impl(case):
             del x
     finally:
         rec.armed = False
-        for tag in case.get("registry", []):
-            I.sz.SerializerBase.unregister_dict_to_class(tag)
+        I.restore_registries()
     obs["audit"] = [list(e) for e in rec.events]
     if obs["kind"] == "ok":
         acc, unknown = set(), set()
@@ -407,7 +491,13 @@ def tree_tag_text(tg):
 def oracle(case, obs):
     I = impl()
     bad = []
-    reg = set(case.get("registry", []))
+    history = history_of(case)
+    reg = spec_registered(history, "d2c")
+    for name, used in obs.get("c2d", []):
+        want = name in spec_registered(history, "c2d")
+        if used != want:
+            bad.append(("class-converter-registration-ignored", "after the register/unregister history %r, %s.class_to_dict %s the converter for %s although it is %s" % (
+                history, case["ser"], "uses" if used is True else "does not use (%s)" % used, name, "registered" if want else "not registered any more")))
     recreated_slot = case["path"] == "loads" or case.get("slot", "vargs") in ("vargs", "kwargs")
     for phase, event, detail in obs["audit"]:
         head = event.split(".")[0]
@@ -420,7 +510,7 @@ def oracle(case, obs):
             bad.append(("audit-lib:" + head, "the %s decoder raised the audit event %s %s" % (case["ser"], event, detail)))
     for c in obs["convs"]:
         if c not in reg:
-            bad.append(("converter-without-registration", "a converter ran for the unregistered tag %r" % c))
+            bad.append(("converter-without-registration", "the converter ran for tag %r with serializer %s although that tag is not registered (any more) after the history %r" % (c, case["ser"], history)))
     if obs["kind"] == "ok":
         for name in obs["unknown"]:
             if name.startswith("non-data:"):
@@ -445,6 +535,9 @@ def oracle(case, obs):
                     bad.append(("dunder-tag-accepted", "the tag %r contains a double underscore and was not rejected" % tx))
                 elif not I.acceptable_tag(tx, case["ser"]):
                     bad.append(("unknown-tag-accepted", "the tag %r names no class of the closed set and was not rejected" % tx))
+        if len(tags) == 1 and sum(count_tagged(p) for p in obs["parts"]) == 1 and texts[0] is not None and texts[0] in reg and obs["convs"] != [texts[0]]:
+            bad.append(("registered-converter-not-used", "the tag %r is registered (history %r) but serializer %s did not hand it to the converter (%s)" % (
+                texts[0], history, case["ser"], obs["exc"] or "decoded otherwise")))
         elif len(tags) == 1 and sum(count_tagged(p) for p in obs["parts"]) == 1 and texts[0] is not None and "__" in texts[0] and texts[0] not in reg and obs["exc"] != "SecurityError" \
                 and not (case["ser"] == "serpent" and tags[0] == "float"):
             bad.append(("dunder-tag-not-refused", "the tag %r contains a double underscore but was not refused as such (raised %s instead of SecurityError)" % (texts[0], obs["exc"])))
@@ -490,10 +583,18 @@ def c_obs(obs):
     return "(IErr %s %s)" % (e, cbool(obs["ext"]))
 
 
+def c_op(h):
+    op, ep, kind, tag = h
+    return "{| op_add := %s; op_ep := %s; op_kind := %s; op_tag := %s |}" % (
+        cbool(op == "reg"), "EpBase" if ep in ("base", "api") else "(EpSer %s)" % cN(SER_IDS[ep]), "KD2C" if kind == "d2c" else "KC2D", ctext(tag))
+
+
 def c_case(case, obs):
     I = impl()
-    return "{| c_ser := %s; c_call := %s; c_reg := %s; c_parts := %s; c_hostile := %s; c_obs := %s; c_convs := %s |}" % (
-        cN(SER_IDS[case["ser"]]), cbool(case["path"] != "loads"), clist([ctext(t) for t in case.get("registry", [])]),
+    c2d = [(n, u) for n, u in obs.get("c2d", []) if isinstance(u, bool)]
+    return "{| c_ser := %s; c_call := %s; c_hist := %s; c_c2d := %s; c_parts := %s; c_hostile := %s; c_obs := %s; c_convs := %s |}" % (
+        cN(SER_IDS[case["ser"]]), cbool(case["path"] != "loads"), clist([c_op(h) for h in history_of(case)]),
+        clist(["(%s, %s)" % (ctext(n), cbool(u)) for n, u in c2d]),
         clist([c_val(p, I) for p in obs["parts"]]), cbool(bool(case.get("hostile"))), c_obs(obs), clist([ctext(t) for t in obs["convs"]]))
 
 
@@ -597,7 +698,7 @@ class Gen:
         if r.random() < 0.9:
             if hostile and r.random() < 0.5:
                 used = True
-                args = r.choice([["n"], ["i", 5], S("abc"), D([("a", ["i", 1])]), L([self.scalar() for _ in range(r.randint(3, 7))]), ["b", [65, 66]],
+                args = r.choice([["n"], ["i", 5], S("abc"), D([("a", ["i", 1])]), L([S("first")] + [self.scalar() for _ in range(r.randint(2, 6))]), ["b", [65, 66]],
                                  L([S("m"), L([S("f"), ["i", 1], ["i", 2], S("t")])]), ["f", 1.0], ["B", True], L([["i", 5], S("I/O error")])] +
                                 ([self.tagged(depth + 1, hostile)[0]] if depth < 3 else []))
             else:
@@ -677,6 +778,20 @@ class Gen:
                 t = D(items)
         return t, used
 
+    def history(self, tree):
+        """1-6 register / unregister calls over the payload's own tags and two other names, through random entry points"""
+        r = self.rng
+        tags = []
+        live_tags(build(tree, self.I), tags)
+        pool = [tx for tx in (tag_text(t) for t in tags) if tx is not None][:2] + ["app.Thing", "my.__Special__"]
+        h = []
+        for _ in range(r.choice([1, 2, 2, 3, 3, 4, 5, 6])):
+            if r.random() < 0.75:
+                h.append([r.choice(["reg", "reg", "unreg"]), r.choice(ENTRY_POINTS), "d2c", r.choice(pool[:3]) if r.random() < 0.8 else r.choice(pool)])
+            else:
+                h.append([r.choice(["reg", "unreg"]), r.choice(ENTRY_POINTS), "c2d", r.choice(sorted(KCLASSES))])
+        return h
+
     def case(self):
         r = self.rng
         ser = r.choice(["serpent", "marshal", "json", "msgpack"])
@@ -687,7 +802,9 @@ class Gen:
         case = {"ser": ser, "path": path, "tree": t, "hostile": bool(used or u2), "registry": []}
         if path == "call":
             case["slot"] = r.choice(["vargs", "vargs", "kwargs", "kwargs", "object", "method"])
-        if r.random() < 0.15:
+        if r.random() < 0.22:
+            case["history"] = self.history(t)
+        elif r.random() < 0.12:
             tags = []
             live_tags(build(t, self.I), tags)
             reg = []
@@ -698,6 +815,35 @@ class Gen:
             reg.append(r.choice(["my.__Special__", "app.Thing", "Pyro5.core.URI", "ValueError"]))
             case["registry"] = sorted(set(reg))
         return case
+
+
+def history_cases(I):
+    """systematic two- and three-step histories mixing the entry points, for every serializer and both decode paths"""
+    out = []
+    T, U = "shop.Order", "shop.Other"
+    tree = L([D([("__class__", S(T)), ("ident", ["i", 42])])])
+    for ser in ("serpent", "marshal", "json", "msgpack"):
+        others = [x for x in ("serpent", "marshal", "json", "msgpack") if x != ser]
+        for path, slot in (("loads", None), ("call", "vargs"), ("call", "kwargs")):
+            for entry in ("api", "base"):
+                hs = [
+                    [["reg", entry, "d2c", T], ["reg", ser, "d2c", U], ["unreg", entry, "d2c", T]],
+                    [["reg", ser, "d2c", T], ["unreg", entry, "d2c", T]],
+                    [["reg", entry, "d2c", T], ["unreg", ser, "d2c", T]],
+                    [["reg", ser, "d2c", U], ["reg", entry, "d2c", T]],
+                    [["reg", others[0], "d2c", T]],
+                    [["reg", others[0], "d2c", T], ["unreg", others[1], "d2c", T]],
+                    [["reg", entry, "d2c", T], ["unreg", ser, "d2c", U], ["unreg", entry, "d2c", T]],
+                    [["reg", ser, "d2c", T], ["unreg", ser, "d2c", T], ["reg", entry, "d2c", T], ["unreg", others[0], "d2c", T]],
+                    [["reg", entry, "c2d", "K0"], ["reg", ser, "c2d", "K1"], ["unreg", entry, "c2d", "K0"]],
+                    [["reg", ser, "c2d", "K0"], ["unreg", entry, "c2d", "K0"], ["reg", entry, "c2d", "K2"]],
+                ]
+                for h in hs:
+                    c = {"ser": ser, "path": path, "tree": tree, "hostile": False, "registry": [], "history": h}
+                    if slot:
+                        c["slot"] = slot
+                    out.append(c)
+    return out
 
 
 def proxy_dict(addr="PYRO:o@127.0.0.1:9"):
@@ -765,8 +911,12 @@ def execute(ctx, cases, model_ok, res):
         res.count("ser:" + case["ser"])
         res.count("path:" + case["path"] + (":" + case.get("slot", "") if case["path"] != "loads" else ""))
         res.count("outcome:" + (obs["exc"] or ("ok:" + ("+".join(n.split(".")[-1] for n in obs["census"][:2]) if obs["census"] else "data"))))
-        if case.get("registry"):
+        if case.get("registry") or case.get("history"):
             res.count("with_registry")
+        if case.get("history"):
+            res.count("history_len_%d" % len(case["history"]))
+            if len({h[1] if h[1] != "api" else "base" for h in case["history"]}) > 1:
+                res.count("history_mixed_entry_points")
         if case.get("hostile"):
             res.count("hostile_members")
         for sig, what in oracle(case, obs):
@@ -784,13 +934,13 @@ def execute(ctx, cases, model_ok, res):
 
 
 def short_obs(obs):
-    return {k: obs[k] for k in ("kind", "census", "unknown", "exc", "ext", "convs", "audit")}
+    return {k: obs.get(k) for k in ("kind", "census", "unknown", "exc", "ext", "convs", "audit", "c2d")}
 
 
 def all_cases(ctx):
     I = impl()
     g = Gen(ctx.rng, I)
-    cases = vlib.load_corpus(PROP) + targeted(I)
+    cases = vlib.load_corpus(PROP) + targeted(I) + history_cases(I)
     n = ctx.n(2600, 12000)
     cases += [g.case() for _ in range(n)]
     return cases
@@ -803,7 +953,7 @@ def run(ctx, model_ok=True):
     res.rule = ("payload trees = a class-tagged dict (tags: the fixed names, every exception name in every naming scheme, every dotted attribute of builtins/os/"
                 "subprocess/sqlite3/struct/sys/Pyro5.*, dunder names, test-local classes, bytes and non-string tags; exception flag of any truthiness; benign or hostile "
                 "args/attributes/state/exception members incl. nested class dicts) wrapped 0-4 levels deep in lists/tuples/dicts with siblings; x 4 serializers x loads/"
-                "loadsCall (vargs, kwargs, object, method slots) x optional registry; targeted: every closed-set name per scheme; non-trivial = an object was built or the "
+                "loadsCall (vargs, kwargs, object, method slots) x optional history of 1-6 register/unregister calls (both registries; through Pyro5.api, SerializerBase or any concrete serializer class) executed on the real classes before decoding and undone afterwards; targeted: every closed-set name per scheme; non-trivial = an object was built or the "
                 "tag was refused/unsupported; distinct = case hash")
     res.samples = cases[-3:] + cases[:2]
     return res
